@@ -251,7 +251,7 @@ fn parse_res(r: Option<Result<U256, ()>>) -> Value {
 pub fn ev_text(op: &str, v: U256, text: &str) -> Value {
     use std::str::FromStr;
     // the 128-bit source type can only hold the low 128 bits
-    let v = if op == "dec_from128" { u256_from_u128(u256_to_u128(&v).unwrap_or(0)) } else { v };
+    let v = if op == "dec_from128" || op == "uint_from128" { u256_from_u128(u256_to_u128(&v).unwrap_or(0)) } else { v };
     let body = match op {
         "dec_render" => json!({"s": jstr(&Decimal256(v).to_string())}),
         "uint_render" => {
@@ -306,6 +306,26 @@ pub fn ev_text(op: &str, v: U256, text: &str) -> Value {
                 u256_from_u128(d.atomics().u128())
             });
             json!({"r": parse_res(r.map(Ok))})
+        }
+        "uint_to128" => {
+            // From<Uint256> for Uint128 / u128
+            let a = guard(|| {
+                let x: Uint128 = Uint256(v).into();
+                u256_from_u128(x.u128())
+            });
+            let b = guard(|| {
+                let x: u128 = Uint256(v).into();
+                u256_from_u128(x)
+            });
+            json!({"r": parse_res(a.map(Ok)), "r2": parse_res(b.map(Ok))})
+        }
+        "uint_from128" => {
+            let a128 = u256_to_u128(&v).unwrap_or(0);
+            let a = guard(|| Uint256::from(a128).0);
+            let b = guard(|| Uint256::from(Uint128::new(a128)).0);
+            let c = guard(|| Uint256::from(a128 as u64).0);
+            json!({"r": parse_res(a.map(Ok)), "r2": parse_res(b.map(Ok)), "r3": parse_res(c.map(Ok)),
+                   "low64": j128((a128 as u64) as u128)})
         }
         "dec_from128" => {
             // From<Decimal> for Decimal256 (value must fit 128 bits: taken from the low words)
@@ -542,7 +562,7 @@ pub fn run(seed: u64, n: usize, kinds: &[String], out: &mut dyn Write) -> std::i
     while count < n {
         if want("text") && (kinds.len() == 1 || r.chance(1, 8)) {
             let ops = ["dec_render", "uint_render", "dec_parse", "uint_parse", "dec_roundtrip", "uint_roundtrip",
-                       "dec_to128", "dec_from128", "dec_json_parse", "uint_json_parse"];
+                       "dec_to128", "dec_from128", "dec_json_parse", "uint_json_parse", "uint_to128", "uint_to128", "uint_from128"];
             let op = *r.pick(&ops);
             let v = match r.below(4) {
                 0 => {
